@@ -186,6 +186,46 @@ func cloneFaithful(pre writer) (ok bool) {
 	return seqs[0] == seqs[1] && seqs[1] == seqs[2]
 }
 
+// lcase: two writers with the same configuration (two links) written to in an interleaved
+// order: every writer counts its own frames only.
+type lcase struct {
+	Conf  conf  `json:"conf"`
+	Order []int `json:"order"` // 0 = writer A, 1 = writer B
+}
+
+func evalLinks(c *lcase) string {
+	var cps [2]*capture
+	var ws [2]writer
+	for i := range ws {
+		cps[i] = &capture{}
+		w, err := newWriter(c.Conf, cps[i])
+		if err != nil {
+			return "initialize: " + err.Error()
+		}
+		ws[i] = w
+	}
+	count := [2]int{}
+	for step, who := range c.Order {
+		before := len(cps[who].bufs)
+		if err := ws[who].Write(opMessage(opDecoded, step)); err != nil {
+			return fmt.Sprintf("write %d on link %d: %v", step, who, err)
+		}
+		var out []byte
+		for _, b := range cps[who].bufs[before:] {
+			out = append(out, b...)
+		}
+		f, ok := gm.ParseExactly(out)
+		if !ok {
+			return fmt.Sprintf("write %d on link %d: emitted bytes are not one frame", step, who)
+		}
+		if f.Seq != byte(count[who]) {
+			return fmt.Sprintf("write %d: link %d emits sequence number %d, it has emitted %d frames before (the other link %d): counters are per link", step, who, f.Seq, count[who], count[1-who])
+		}
+		count[who]++
+	}
+	return ""
+}
+
 // evalHistory returns problem and number of transitions.
 func evalHistory(c *hcase) (string, int) {
 	return evalHistoryFrom(c, nil)
@@ -359,6 +399,12 @@ func main() {
 			d := evalInit(&c)
 			return d != "", d
 		}
+		if class == "links" {
+			var c lcase
+			json.Unmarshal(raw, &c)
+			d := evalLinks(&c)
+			return d != "", d
+		}
 		var c hcase
 		json.Unmarshal(raw, &c)
 		d, _ := evalHistory(&c)
@@ -423,6 +469,21 @@ func main() {
 			jobs = append(jobs, job{c, o})
 		}
 	}
+	// two links side by side: all interleavings of 6 writes over two writers of one configuration
+	// (sequentially, before anything runs in parallel)
+	for _, c := range confs {
+		for m := 0; m < 64; m++ {
+			lc := lcase{Conf: c}
+			for b := 0; b < 6; b++ {
+				lc.Order = append(lc.Order, (m>>uint(b))&1)
+			}
+			hist.Add(1)
+			trans.Add(6)
+			if prob := evalLinks(&lc); prob != "" {
+				r.Fail("links", fmt.Sprintf("%s v%d key=%v %v", c.Kind, c.Version, c.Key, lc.Order), lc, prob)
+			}
+		}
+	}
 	bx.ParDo(len(jobs), func(ji int) {
 		j := jobs[ji]
 		d := depth
@@ -462,10 +523,13 @@ func main() {
 			prob, n := evalHistoryFrom(&c, pre)
 			hist.Add(1)
 			trans.Add(n)
-			if idx%53 == 0 {
+			if idx%53 == 0 && pre != nil {
 				// cross-validate the cloned start state against a full replay
 				if p2, _ := evalHistory(&c); (p2 == "") != (prob == "") {
-					bx.Fatalf("cloned writer state and replayed writer state disagree on %+v: %q vs %q", c, prob, p2)
+					// a writer whose behaviour depends on anything but its own history (state shared
+					// between writers) shows up here; a defect of the cloning would not reproduce
+					// when the case is re-executed and ends as a machinery error then
+					r.Fail("history", fmt.Sprintf("%s v%d key=%v off=%d %v (not a function of the history)", c.Conf.Kind, c.Conf.Version, c.Conf.Key, c.Offset, c.Ops), c, "the same history gives different results on two writers: "+prob+p2)
 				}
 			}
 			if prob != "" {
@@ -523,11 +587,11 @@ func main() {
 		"transitions":                   trans.N(),
 		"traces_validated_against_impl": hist.N(),
 		"jobs_replaying_prefix_because_struct_copy_is_not_a_clone": replayed.N(),
-		"evaluations":                   hist.N() + ninit,
-		"distinct_nontrivial":           states.N(),
-		"rule":                          "state = (configuration, frames emitted mod 256); all operation sequences of length <= depth over {decoded, raw, with extensions, id 300, id outside the dialect, nil} from offsets {0,254,255,256,510,511}; every emitted frame is parsed by the reference and compared with the configured identity, version, flags, checksum and the reference counter",
-		"depth":                         depth,
-		"configurations":                len(confs),
-		"init_configurations":           ninit,
+		"evaluations":         hist.N() + ninit,
+		"distinct_nontrivial": states.N(),
+		"rule":                "state = (configuration, frames emitted mod 256); all operation sequences of length <= depth over {decoded, raw, with extensions, id 300, id outside the dialect, nil} from offsets {0,254,255,256,510,511}; every emitted frame is parsed by the reference and compared with the configured identity, version, flags, checksum and the reference counter",
+		"depth":               depth,
+		"configurations":      len(confs),
+		"init_configurations": ninit,
 	})
 }
